@@ -75,7 +75,7 @@ fn c02_map_targets_mt() {
 
 // @unit class=bounded tier=quick mem=light bound="n=3,p=2,single target,weights+names,values symbolic u8" timeout=600 fns=linfa::dataset::DatasetBase::view,linfa::dataset::DatasetBase::to_owned
 #[kani::proof]
-#[kani::unwind(5)]
+#[kani::unwind(8)]
 #[kani::stub(alloc::fmt::format, fmt_stub)]
 fn c02_view_to_owned_st() {
     let v: [u8; 6] = kani::any();
